@@ -293,6 +293,10 @@ class Worker:
             s.x.call('C_CloseSession', s=S['h']); S['h'] = s.x.call('C_OpenSession', slot=s.slot)['h']
         s.case(op.kind, op.cls, step, 'none')
         if op.disturbed: s.run_twin(op)
+        elif s.rnd.random() < 0.3:
+            # "an operation that finished or failed is gone": whatever ran in this session before, this operation must have answered as it does in a session that never ran
+            # anything - the same calls are replayed on a brand-new twin session
+            s.reset_twin(); s.run_twin(op)
     def run_twin(s, op):
         """replay the completed calls of a disturbed operation, undisturbed, on the twin session and compare"""
         part = s.part; T = s.twin; fns = KIND_FNS[op.kind]
@@ -308,11 +312,11 @@ class Worker:
         main_rvs = [rv for _, rv, _ in op.done]; main_out = b''.join(o for _, _, o in op.done if o is not None); twin_out = b''.join(outs)
         twin_ended = bool(rvs) and (rvs[-1] != OK or op.done[len(rvs) - 1][0]['fn'] in ENDS)
         if not twin_ended: s.reset_twin()          # the replay left an operation open on the twin session
-        icls = f'{op.cls},{op.kind},disturbed'
+        icls = f'{op.cls},{op.kind},' + ('disturbed' if op.disturbed else 'used-session'); how = 'that was disturbed by size queries / too-small buffers' if op.disturbed else 'run in a session that had run other operations before'
         part.count('twin_runs')
         if rvs != main_rvs[:len(rvs)] or len(rvs) != len(main_rvs):
-            s.V(fns[3] or fns[1], icls, 'return-codes-differ-from-twin', f'a {op.kind} operation ({op.m.name}) that was disturbed by size queries / too-small buffers answered {main_rvs}, the undisturbed twin {rvs}', mech=op.m.name, mechanism=op.mech, calls=[(c['fn'], c['kw']) for c, _, _ in op.done])
-            s.case(op.kind, op.cls, 'twin', 'none'); return
+            s.V(fns[3] or fns[1], icls, 'return-codes-differ-from-twin', f'a {op.kind} operation ({op.m.name}) {how} answered {main_rvs}, the twin on a fresh session {rvs}', mech=op.m.name, mechanism=op.mech, calls=[(c['fn'], c['kw']) for c, _, _ in op.done])
+            s.case(op.kind, op.cls, 'twin' if op.disturbed else 'twin-fresh-session', 'none'); return
         if main_rvs and main_rvs[-1] == OK and op.kind != 'verify':
             if not op.m.rand or op.kind == 'decrypt':       # decryption is deterministic also for randomised encryption schemes
                 if main_out != twin_out:
@@ -321,7 +325,7 @@ class Worker:
                 good = s.semantic_check(op, main_out)
                 if good is False:
                     s.V(fns[3] or fns[1], icls, 'result-does-not-verify', f'the output of a disturbed {op.kind} operation ({op.m.name}, randomised) does not verify/decrypt', mech=op.m.name, mechanism=op.mech, got=main_out.hex())
-        s.case(op.kind, op.cls, 'twin', 'none')
+        s.case(op.kind, op.cls, 'twin' if op.disturbed else 'twin-fresh-session', 'none')
     def semantic_check(s, op, out):
         if op.kind == 'sign':
             r = s.x.call('C_VerifyInit', s=s.twin, mech=op.mech, key=s.keyfor(op.m, 'verify', op.var))
